@@ -23,11 +23,17 @@ const WORDS: &[&str] = &[
     "2 cups", "2 Cups", "5 min", "5 Min", "3 c", "3 C", "100 g", "100 G", "2 EL", "3 Tassen", "20 Minuten", "1 Liter", "2 Kg", "1 dekagram", "3 KL", "5 dal",
     // short block comments and other comment shapes
     "[- x -]", "[--]", "[-a-]", "[- ok -]", "[- v2 -]", "[-  -]", "[- or -]", "a[-b-]c",
+    // two-character delimiters that overlap but close again
+    "[-] x -]", "[---]", "-]",
 ];
+/// ... and forms that open a comment which never closes (they swallow the rest of the input, so
+/// they are confined to the inputs that may contain malformed constructs)
+const OPEN_COMMENTS: &[&str] = &["[-]", "[-]-]", "[-[-", "[- ", "--]"];
 const META_KEYS: &[&str] = &[
     "time", "prep time", "cook time", "servings", "tags", "source", "author", "title",
     "description", "course", "locale", "difficulty", "[mode]", "[define]", "[duplicate]", "[x]",
     "time required", "duration", "yield", "serves", "name", "image",
+    "date", "date", "created", "updated", "published", "last made", "best before",
 ];
 const MODE_VALS: &[&str] = &[
     "all", "default", "components", "ingredients", "steps", "text", "new", "reference", "ref",
@@ -177,6 +183,7 @@ fn step(r: &mut Rng, seen: &mut Vec<String>, invalid: bool) -> String {
                 }
             }
             5 if !invalid => s.push_str(r.pick_str(WORDS)),
+            5 if r.chance(1, 6) => s.push_str(r.pick_str(OPEN_COMMENTS)),
             5 => s.push_str(match r.below(8) {
                 0 => "@{}",
                 1 => "~{}",
@@ -191,10 +198,18 @@ fn step(r: &mut Rng, seen: &mut Vec<String>, invalid: bool) -> String {
                 s.push_str("-- trailing comment");
             }
             7 if r.chance(1, 3) => {
-                // a token from the library's own source (see dict.rs)
+                // a token from the library's own source (see dict.rs). Tokens made of syntax
+                // characters turn a step into a hard parser error (`~ ` is a timer without a
+                // quantity, `>>` an empty metadata entry), and one hard error anywhere means no
+                // output at all: in inputs that are meant to be well-formed only the others are used
                 let d = crate::dict::get();
                 if !d.recipe.is_empty() {
-                    s.push_str(&d.recipe[r.below(d.recipe.len())]);
+                    let t = &d.recipe[r.below(d.recipe.len())];
+                    if invalid || !t.contains(['~', '@', '#', '>', '{', '}', '[', ']', '-', '=', '%', '|', '(', ')', '&', ':']) {
+                        s.push_str(t);
+                    } else {
+                        s.push_str(r.pick_str(WORDS));
+                    }
                 } else {
                     s.push_str(r.pick_str(WORDS));
                 }
@@ -210,9 +225,81 @@ fn step(r: &mut Rng, seen: &mut Vec<String>, invalid: bool) -> String {
     s
 }
 
+/// (year, month, day, hour, minute, second) of a Unix time stamp, UTC
+pub fn civil(ts: i64) -> (i64, u32, u32, u32, u32, u32) {
+    let days = ts.div_euclid(86_400);
+    let secs = ts.rem_euclid(86_400);
+    let z = days + 719_468;
+    let era = z.div_euclid(146_097);
+    let doe = z.rem_euclid(146_097);
+    let yoe = (doe - doe / 1_460 + doe / 36_524 - doe / 146_096) / 365;
+    let y = yoe + era * 400;
+    let doy = doe - (365 * yoe + yoe / 4 - yoe / 100);
+    let mp = (5 * doy + 2) / 153;
+    let d = (doy - (153 * mp + 2) / 5 + 1) as u32;
+    let m = if mp < 10 { mp + 3 } else { mp - 9 } as u32;
+    (if m <= 2 { y + 1 } else { y }, m, d, (secs / 3600) as u32, (secs % 3600 / 60) as u32, (secs % 60) as u32)
+}
+
+/// A calendar date or time stamp as people write it into metadata. The instants cluster around
+/// the start of simulated time (the clock seam makes "now" a known quantity: a value a few seconds,
+/// hours or days ahead of it is crossed by a clock jump or by time running fast) and around the
+/// dates the clock jumps to; some are impossible dates.
+pub fn date_value(r: &mut Rng) -> String {
+    let now = crate::clock::EPOCH_A;
+    let ts = match r.below(14) {
+        0 => now + r.range(1, 30) as i64,
+        1 => now + r.range(1, 48) as i64 * 3600,
+        2 => now - r.range(1, 48) as i64 * 3600,
+        3 => now + r.range(2, 400) as i64 * 86_400,
+        4 => now - r.range(2, 4000) as i64 * 86_400,
+        5 => now,
+        6 => 2_147_483_647 + r.range(0, 3) as i64 - 1,
+        7 => 0,
+        8 => 951_782_400,
+        9 => 2_400_000_000 - r.range(0, 400) as i64 * 86_400,
+        10 => now - 20 * 365 * 86_400 + r.range(0, 800) as i64 * 86_400,
+        11 => 1_798_761_599 + r.range(0, 2) as i64,
+        12 => now + 86_400 - 14 * 3600 + r.range(0, 7200) as i64 - 3600,
+        _ => r.range(0, 2_000_000_000) as i64,
+    };
+    let (y, m, d, h, mi, sec) = civil(ts);
+    match r.below(12) {
+        0..=4 => format!("{y:04}-{m:02}-{d:02}"),
+        5 => format!("{y:04}-{m:02}-{d:02}T{h:02}:{mi:02}:{sec:02}Z"),
+        6 => format!("{y:04}-{m:02}-{d:02} {h:02}:{mi:02}"),
+        7 => format!("{y:04}-{m:02}-{d:02}T{h:02}:{mi:02}:{sec:02}+14:00"),
+        8 => format!("{y:04}-{m:02}-{d:02}T{h:02}:{mi:02}:{sec:02}.500-12:00"),
+        9 => format!("{d:02}.{m:02}.{y:04}"),
+        10 => r.pick_str(&["2023-02-29", "2100-02-29", "2024-13-01", "0000-00-00", "9999-12-31", "2024-1-2", "24-01-02", "2026-01-15T24:00:00Z"]).to_string(),
+        _ => format!("{m}/{d}/{y}"),
+    }
+}
+
+/// a value of any of the shapes metadata values come in
+fn any_meta_value(r: &mut Rng) -> String {
+    match r.below(8) {
+        0 | 1 => date_value(r),
+        2 => format!("{} min", r.range(1, 90)),
+        3 => format!("{}", r.range(1, 3000)),
+        4 => "a, b c, d".to_string(),
+        5 => "Mom <https://mom.example>".to_string(),
+        6 => r.pick_str(&["true", "~", "", "2|4", "1h 30min", "1.5"]).to_string(),
+        _ => r.pick_str(WORDS).to_string(),
+    }
+}
+
 fn meta_line(r: &mut Rng) -> String {
+    // one key in five is a key the library's own metadata code mentions (see dict.rs), with a
+    // value of any shape
+    let d = crate::dict::get();
+    if !d.meta_keys.is_empty() && r.chance(1, 5) {
+        let k = r.pick(&d.meta_keys).clone();
+        return format!(">> {k}: {}", any_meta_value(r));
+    }
     let k = r.pick(META_KEYS);
     let v = match *k {
+        "date" | "created" | "updated" | "published" | "last made" | "best before" => date_value(r),
         "time" | "prep time" | "cook time" | "time required" | "duration" => match r.below(8) {
             // values that are not a whole number of minutes, and compound ones
             5 => "50 sec".to_string(),
@@ -244,10 +331,22 @@ const LOCALES: &[&str] = &["de", "es_ES", "fr", "en_US", "de_CH", "pt-BR", "en",
 fn frontmatter(r: &mut Rng) -> String {
     let mut s = String::from("---\n");
     for _ in 0..r.range(0, 5) {
+        let d = crate::dict::get();
+        if !d.meta_keys.is_empty() && r.chance(1, 5) {
+            let k = r.pick(&d.meta_keys).clone();
+            let v = any_meta_value(r);
+            s.push_str(&if v.contains(": ") || v.starts_with(['~', '|', '<', '[']) || r.chance(1, 3) { format!("{k}: \"{}\"\n", v.replace('"', "'")) } else { format!("{k}: {v}\n") });
+            continue;
+        }
         let k = *r.pick(META_KEYS);
         let k = k.trim_matches(|c| c == '[' || c == ']');
         if k == "locale" {
             s.push_str(&format!("locale: {}\n", r.pick_str(LOCALES)));
+            continue;
+        }
+        if matches!(k, "date" | "created" | "updated" | "published" | "last made" | "best before") {
+            let v = date_value(r);
+            s.push_str(&if r.chance(1, 3) { format!("{k}: \"{v}\"\n") } else { format!("{k}: {v}\n") });
             continue;
         }
         let v = match r.below(10) {
@@ -365,6 +464,7 @@ const AISLE_NAMES: &[&str] = &[
     "milk", "butter", "tuna", "chicken of the sea", "potatoes", "a", "b", "é", "crème", "[x]",
     "[", "]", "x]", "[y", "a b", "🍅", "/", "a/", "/b", "-", "",
     "A", "B", "Milk", "MILK", "Maße", "Masse", "É", "a  b", "a\tb", "ﬁ", "fi",
+    "tomato", "tomatoes", "egg", "eggs", "potato", "radish", "radishes", "bus",
 ];
 const AISLE_CATS: &[&str] = &[
     "produce", "dairy", "canned goods", "c", "é", "", " spaced ", "a]b", "[", "x y z", "deli",
@@ -412,6 +512,28 @@ pub fn aisle_structured(r: &mut Rng) -> String {
                             0 => format!("{t}{n}"),
                             1 => format!("{n}{t}"),
                             _ => t,
+                        };
+                    }
+                }
+                // a name derived from one that is already in the file: its plural or singular, a
+                // prefix of it, it plus a word, another case - what a lookup that stems, folds or
+                // truncates its keys confuses with the original (on another line, in either order)
+                if !used.is_empty() && r.chance(1, 6) {
+                    let base = r.pick(&used).clone();
+                    let base = base.trim();
+                    if base.chars().count() >= 2 {
+                        n = match r.below(8) {
+                            0 | 1 => format!("{base}s"),
+                            2 => format!("{base}es"),
+                            3 => base.strip_suffix("es").or_else(|| base.strip_suffix('s')).unwrap_or(base).to_string(),
+                            4 => {
+                                let mut c: Vec<char> = base.chars().collect();
+                                c.pop();
+                                c.into_iter().collect()
+                            }
+                            5 => format!("{base} x"),
+                            6 => base.to_uppercase(),
+                            _ => format!("\"{base}\""),
                         };
                     }
                 }
@@ -528,6 +650,14 @@ pub fn aisle_large(r: &mut Rng) -> String {
 }
 
 pub fn aisle_file(r: &mut Rng) -> String {
+    // a file saved as "UTF-8 with BOM" by an editor
+    if r.chance(1, 25) {
+        return format!("{}{}", '\u{feff}', aisle_file_plain(r));
+    }
+    aisle_file_plain(r)
+}
+
+fn aisle_file_plain(r: &mut Rng) -> String {
     if r.chance(1, 40) {
         return aisle_large(r);
     }
